@@ -535,7 +535,7 @@ def run_fuzz(ctx, runs_per_job, jobs):
             fh.write(t + "\n")
     env = {"VF_FUZZ_VIOL": os.path.join(d, "viol")}
     workers = min(jobs, vf.NCPU)
-    args = [f"-runs={runs_per_job}", f"-jobs={jobs}", f"-workers={workers}", "-max_len=4096", f"-seed={ctx.seed}",
+    args = [f"-runs={runs_per_job}", f"-jobs={jobs}", f"-workers={workers}", "-max_len=1024", f"-seed={ctx.seed}",
             f"-artifact_prefix={d}/artifact-", "-print_final_stats=1", "-timeout=25", "-rss_limit_mb=2048",
             f"-dict={d}/json.dict", corpus]
     rr = vf.run_harness(fb, args, timeout=3000, env_extra=env, cwd=d, parse_stdout=False)
@@ -595,9 +595,7 @@ def run(ctx):
     summaries = SH.run_pool(jobs)
     SH.merge(ctx, summaries)
     if thorough:
-        total = 40_000_000
-        njobs = 16
-        run_fuzz(ctx, total // njobs, njobs)
+        run_fuzz(ctx, 150000, 16)        # bounded by executions (-runs), not by time
     ctx.rule = ("texts = grammar-based RFC 8259 generator (every escape form incl. \\uXXXX with mixed-case hex and surrogate pairs, 20 number forms, "
                 "whitespace, duplicate keys incl. escaped aliases, limit cases at -1/0/+1/+2 of each ParseLimits field under 8 limit sets + the defaults); "
                 "values = typed trees (finite doubles incl. subnormals/+-0/1e+-308/17-digit, int64 boundaries, UTF-8 strings with control characters) dumped in 5 modes; "
